@@ -6,10 +6,10 @@ import (
 	"context"
 	"errors"
 	"fmt"
+	"runtime"
 	"sort"
 	"strconv"
 	"strings"
-	"runtime"
 	"sync"
 	"sync/atomic"
 	"testing"
@@ -86,13 +86,13 @@ type world struct {
 	freeRun bool  // never park; perturb instead
 	tape    []int // perturbation tape (the scenario's picks)
 	tapePos atomic.Int64
-	mu     sync.Mutex
-	log    []Rec
-	parked []*parkedG
-	free   bool
-	keys   map[any]string
-	trace  []string
-	maxPar int // max number of goroutines parked at one step (a real choice point when >= 2)
+	mu      sync.Mutex
+	log     []Rec
+	parked  []*parkedG
+	free    bool
+	keys    map[any]string
+	trace   []string
+	maxPar  int // max number of goroutines parked at one step (a real choice point when >= 2)
 }
 
 func (w *world) reg(key any, name string) {
@@ -314,15 +314,15 @@ func (r *recReplayer) Replay(sub sse.Subscription) error {
 // ---------------------------------------------------------------------------------------
 
 type execution struct {
-	log        []Rec
-	trace      []string
-	stuck      []string // actors that never returned
-	bubble     string   // panic raised by synctest (deadlock / leaked goroutines)
-	maxParked  int
-	msgTopics  map[string][]string
-	msgPub     map[string]int
-	steps      int
-	truncated  bool
+	log       []Rec
+	trace     []string
+	stuck     []string // actors that never returned
+	bubble    string   // panic raised by synctest (deadlock / leaked goroutines)
+	maxParked int
+	msgTopics map[string][]string
+	msgPub    map[string]int
+	steps     int
+	truncated bool
 }
 
 type action struct {
